@@ -588,8 +588,10 @@ std::vector<Case> generate(Ctx& ctx, int n)
 std::string trace_of(Case const& c, Ctx& ctx)
 {
 	std::vector<std::string> t; Summary s;
+	std::string taps; trace_sink() = &taps;
 	std::string e = run_world(c, ctx, false, t, s, false);
-	std::string out;
+	trace_sink() = nullptr;
+	std::string out = taps;
 	for (auto const& l : t) { out += l; out += '\n'; }
 	out += "verdict " + e + "\n";
 	return out;
